@@ -266,6 +266,18 @@ func (e *e2) judgeTermination(hist []*HistEntry) {
 				e.violate([]string{"C16"}, "term.callback-after-done", "feed %s invoked its callback after closing its done channel", id)
 				return
 			}
+			if ts, ok := e.termSeq[fs.ID]; ok && stopped[id] && fs.Run == 0 {
+				late := 0
+				for _, ev := range f.Snapshot() {
+					if int64(ev.Step) > ts+1 {
+						late++
+					}
+				}
+				if late > 0 {
+					e.violate([]string{"C16"}, "term.callback-after-terminator", "feed %s: its terminator was closed and the close had been processed, yet its callback was invoked %d more time(s) (for events still queued)", id, late)
+					return
+				}
+			}
 			e.probe("term.ended-ok")
 			continue
 		}
